@@ -106,14 +106,23 @@ class Report:
             self.samples.append(case)
 
     def disagree(self, case, model, impl, what=""):
-        if len(self.disagreements) < 50:
+        # capped per kind (`what` may name a known finding), see oracle_fail
+        per = self._per_what = getattr(self, "_per_what", {})
+        per[what] = per.get(what, 0) + 1
+        if (per[what] <= 5 or len(self.disagreements) < 50) and len(self.disagreements) < 400:
             self.disagreements.append({"case": case, "model": model, "impl": impl, "what": what})
         self.count("disagreement")
 
     def oracle_fail(self, case, verdict, key=None):
         """`key` identifies the finding (input / call site) for known_findings matching."""
-        if len(self.oracle_failures) < 50:
-            self.oracle_failures.append({"case": case, "verdict": verdict, "key": key or verdict})
+        # the list is capped per key, not in total: failures under a key that is listed as a known finding (dozens
+        # per run for some properties) must never crowd out a failure under a key seen for the first time
+        k = key or verdict
+        per_key = self._per_key = getattr(self, "_per_key", {})
+        per_key[k] = per_key.get(k, 0) + 1
+        if per_key[k] <= 5 or len(self.oracle_failures) < 50:
+            if len(self.oracle_failures) < 400:
+                self.oracle_failures.append({"case": case, "verdict": verdict, "key": k})
         self.count("oracle_failure")
 
 
